@@ -292,12 +292,20 @@ def cond_atoms(terms, condv, polarity):
                 v = i.ops[0]
                 polarity = not polarity
                 continue
+            if i.op == 'select' and len(i.ops) == 3:
+                # `c ? true : false` / `c ? false : true` (the project's boolean macros, possibly kept in a local)
+                ka, kb = const_of(i.ops[1]), const_of(i.ops[2])
+                if ka is not None and kb is not None and bool(ka) != bool(kb):
+                    if not ka:
+                        polarity = not polarity
+                    v = i.ops[0]
+                    continue
             if i.op == 'icmp' and i.pred in ('ne', 'eq'):
                 c1 = const_of(i.ops[1])
                 inner = strip_casts(i.ops[0])
                 inner_bool = inner.k == 'i' and inner.inst is not None and (
                     inner.inst.ty == 'i1' or inner.inst.op in ('icmp', 'zext') and
-                    _is_boolish(inner))
+                    _is_boolish(inner) or _bool_select(inner.inst))
                 if c1 == 0 and inner_bool:
                     if i.pred == 'eq':
                         polarity = not polarity
@@ -316,6 +324,13 @@ def cond_atoms(terms, condv, polarity):
         pass
     t = terms.term(v)
     return [('cmp', 'ne' if polarity else 'eq', t, ('const', 0))]
+
+
+def _bool_select(i):
+    if i.op != 'select' or len(i.ops) != 3:
+        return False
+    ka, kb = const_of(i.ops[1]), const_of(i.ops[2])
+    return ka is not None and kb is not None and bool(ka) != bool(kb)
 
 
 def _is_boolish(v):
